@@ -4,6 +4,7 @@ import (
 	"errors"
 	"fmt"
 	"net/url"
+	"strings"
 )
 
 var (
@@ -26,6 +27,12 @@ const (
 func GetRefType(ref string) (RefType, error) {
 	urlRef, err := url.Parse(ref)
 	if err != nil {
+		// Not a URL at all, for example the name of a file in a directory
+		// called "50%_off": only something that names a scheme has to parse.
+		if !strings.Contains(ref, "://") {
+			return RefTypeFile, nil
+		}
+
 		return RefTypeUnknown, fmt.Errorf("%w: %w", ErrGetRefType, err)
 	}
 
